@@ -9,4 +9,5 @@ var RepoDir = "/repo"
 var All = map[string]func() *corr.Engine{
 	"C02": C02,
 	"C17": C17,
+	"C08": C08,
 }
